@@ -23,7 +23,14 @@ POOL = {
     'Balance2': ('pan', ['ar', 'kr'], 4, 2),
     'RandSeed': ('noise', ['ar', 'kr', 'ir'], 2, 0),
     'RandID': ('noise', ['kr', 'ir'], 1, 0),
+    # FFT chain units: width-first SynthObjects (not UGens), usable only as chain arguments
+    'FFT': ('fft', ['kr'], 6, 1),
+    'PV_MagAbove': ('fft', ['new'], 2, 1),
+    'PV_BrickWall': ('fft', ['new'], 2, 1),
+    'PV_MagMul': ('fft', ['new'], 2, 1),
+    'IFFT': ('fft', ['ar'], 3, 1),
 }
+CHAIN_CLASSES = {'FFT', 'PV_MagAbove', 'PV_BrickWall', 'PV_MagMul', 'IFFT'}
 PURE_HINT = {'SinOsc', 'LFSaw', 'LFPulse', 'Impulse', 'K2A', 'A2K', 'LinExp', 'DC'}
 RATE_CONSTRAINED = {'Pan2', 'Balance2'}          # `_check_n_inputs`: may reject valid-looking programs
 UNOPS_OPAQUE = ['abs', 'squared', 'midicps', 'reciprocal']
